@@ -69,6 +69,22 @@ impl Agg {
     }
 }
 
+impl Agg {
+    fn to_json(&self) -> Value {
+        json!({"n": [self.instances, self.runs, self.nontrivial, self.cut_runs, self.cut_nontrivial, self.primal_runs, self.primal_below_opt, self.infeasible_instances, self.merges, self.restricted, self.relaxed,
+                     self.cache_hits, self.dom_pruned, self.relax_calls, self.layers_checked, self.long_arc_instances, self.twin_pairs, self.cache_twin_diff_explored, self.gap_checked, self.max_fuel_permille, self.hangs],
+               "outcomes": self.outcomes, "samples": self.samples, "monitor_hits": self.monitor_hits})
+    }
+    fn from_json(v: &Value) -> Agg {
+        let n: Vec<u64> = v["n"].as_array().map(|a| a.iter().map(|x| x.as_u64().unwrap_or(0)).collect()).unwrap_or_default();
+        let g = |i: usize| n.get(i).copied().unwrap_or(0);
+        let map = |k: &str| -> BTreeMap<String, u64> { v[k].as_object().map(|o| o.iter().map(|(a, b)| (a.clone(), b.as_u64().unwrap_or(0))).collect()).unwrap_or_default() };
+        Agg { instances: g(0), runs: g(1), nontrivial: g(2), cut_runs: g(3), cut_nontrivial: g(4), primal_runs: g(5), primal_below_opt: g(6), infeasible_instances: g(7), merges: g(8), restricted: g(9), relaxed: g(10),
+              cache_hits: g(11), dom_pruned: g(12), relax_calls: g(13), layers_checked: g(14), long_arc_instances: g(15), twin_pairs: g(16), cache_twin_diff_explored: g(17), gap_checked: g(18), max_fuel_permille: g(19), hangs: g(20),
+              outcomes: map("outcomes"), samples: v["samples"].as_array().cloned().unwrap_or_default(), monitor_hits: map("monitor_hits") }
+    }
+}
+
 pub struct Finding { pub prop: &'static str, pub sig: String, pub what: String }
 
 fn model_class(m: &dyn Model) -> String {
@@ -185,7 +201,8 @@ pub fn run_instance(rep: &Reporter, focus: &[&str], plan: &Plan, idx: u64, agg: 
     for var in vars {
         let marc: std::sync::Arc<dyn Model> = std::sync::Arc::from(plan.fam.build(idx, var));
         let m: &dyn Model = marc.as_ref();
-        if plan.par1 && agg.hangs >= 20 { return; }
+        // (a confirmed hang costs 140 s: a forked child of the sweep stops at its first one, the in-process sweep after twenty)
+        if plan.par1 && agg.hangs >= if STRIPE.lock().unwrap().is_some() { 1 } else { 20 } { return; }
         let par1 = plan.par1;
         let hangs = std::cell::Cell::new(0u64);
         let solve = |spec: &RunSpec| -> Out {
@@ -310,7 +327,84 @@ pub fn vshort(v: &Variant) -> String {
     format!("{}{}{}rub={:?},dom={:?},rank={:?}{}", if v.flat { "flat," } else { "depth," }, if v.bonus { "bonus," } else { "" }, if v.la { "longarcs," } else { "" }, v.rub, v.dom, v.rank, if v.revperm { ",revperm" } else { "" })
 }
 
+extern "C" { fn fork() -> i32; fn _exit(code: i32) -> !; fn waitpid(pid: i32, status: *mut i32, options: i32) -> i32; }
+/// (stripe, number of stripes) of a forked child of the single-worker sweeps
+static STRIPE: std::sync::Mutex<Option<(u64, u64)>> = std::sync::Mutex::new(None);
+
+/// The single-worker sweeps of the parallel solver are bound by thread creation inside ONE address space (1.9e4 runs per
+/// second with one harness thread, fewer with more).  They are therefore farmed out to one forked child PROCESS per core:
+/// child k runs the instances i with i mod N == k of every plan on one thread pinned to core k and hands its counters and
+/// its violations back through a file; the parent merges them (every violation goes through the parent's reporter, so
+/// known-finding matching and the three-per-signature limit are applied once).  Plans, models and the reporter need no
+/// serialisation: the child is a copy of the parent.  Falls back to the in-process sweep when a fork fails.
 pub fn run_plans(rep: &Reporter, focus: &[&str], plans: &[Plan], deadline: Option<Instant>) -> (Agg, Vec<Value>, bool) {
+    let n = nthreads() as u64;
+    let forked = STRIPE.lock().unwrap().is_some();
+    if forked || n < 2 || plans.is_empty() || !plans.iter().all(|p| p.par1) || std::env::var("VERIF_KNOWN_GEN").is_ok() || std::env::var("VERIF_NO_FORK").is_ok() { return run_plans_here(rep, focus, plans, deadline); }
+    let dir = std::env::var("VERIF_BUILD").unwrap_or_else(|_| format!("{}/.build", verif_dir()));
+    let base = rep.violations.lock().unwrap().len();
+    let mut kids: Vec<(i32, String)> = vec![];
+    for k in 0..n {
+        let file = format!("{}/par1-{}-{}-{}.json", dir, rep.property, std::process::id(), k);
+        let _ = std::fs::remove_file(&file);
+        let pid = unsafe { fork() };
+        if pid == 0 {
+            // child: one stripe, one thread, its own core
+            *STRIPE.lock().unwrap() = Some((k, n));
+            PIN_OFFSET.store(k as usize, std::sync::atomic::Ordering::SeqCst);
+            let r = std::panic::catch_unwind(std::panic::AssertUnwindSafe(|| run_plans_here(rep, focus, plans, deadline)));
+            if let Ok((agg, scopes, complete)) = r {
+                let viol: Vec<Value> = rep.violations.lock().unwrap().iter().skip(base).map(|v| json!({"sig": v.sig, "what": v.what, "replay": v.replay})).collect();
+                let errs: Vec<String> = rep.engine_errors.lock().unwrap().clone();
+                let out = json!({"agg": agg.to_json(), "scopes": scopes, "complete": complete, "violations": viol, "engine_errors": errs});
+                let tmp = format!("{}.tmp", file);
+                if std::fs::write(&tmp, serde_json::to_string(&out).unwrap_or_default()).is_ok() { let _ = std::fs::rename(&tmp, &file); }
+                unsafe { _exit(0) }
+            }
+            unsafe { _exit(3) }
+        }
+        if pid < 0 { break; }
+        kids.push((pid, file));
+    }
+    if kids.len() as u64 != n {
+        // could not create every child: wait for those which exist, ignore what they did, do the work here
+        for (pid, file) in kids.iter() { let mut st = 0; unsafe { waitpid(*pid, &mut st, 0); } let _ = std::fs::remove_file(file); }
+        return run_plans_here(rep, focus, plans, deadline);
+    }
+    let mut total = Agg::default();
+    let mut scopes: Vec<Value> = vec![];
+    let mut all_complete = true;
+    let errs0 = rep.engine_errors.lock().unwrap().len();
+    for (k, (pid, file)) in kids.iter().enumerate() {
+        let mut st = 0;
+        unsafe { waitpid(*pid, &mut st, 0); }
+        let v: Option<Value> = std::fs::read_to_string(file).ok().and_then(|t| serde_json::from_str(&t).ok());
+        let _ = std::fs::remove_file(file);
+        match v {
+            None => { all_complete = false; rep.engine_error(format!("child process {} of the single-worker sweep ended without a result (wait status {})", k, st)); }
+            Some(v) => {
+                total.merge(Agg::from_json(&v["agg"]));
+                if !v["complete"].as_bool().unwrap_or(false) { all_complete = false; }
+                for x in v["violations"].as_array().cloned().unwrap_or_default() { rep.violation(x["sig"].as_str().unwrap_or("").to_string(), x["what"].as_str().unwrap_or("").to_string(), x["replay"].clone()); }
+                for e in v["engine_errors"].as_array().cloned().unwrap_or_default().into_iter().skip(errs0) { rep.engine_error(e.as_str().unwrap_or("").to_string()); }
+                // per family: a child passes over every index and runs its own residue class; the slowest child tells how far all got
+                for (j, sc) in v["scopes"].as_array().cloned().unwrap_or_default().into_iter().enumerate() {
+                    if k == 0 { scopes.push(sc); } else if let Some(t) = scopes.get_mut(j) {
+                        let d = t["instances_done"].as_u64().unwrap_or(0).min(sc["instances_done"].as_u64().unwrap_or(0));
+                        t["instances_done"] = json!(d);
+                        t["complete"] = json!(t["complete"].as_bool().unwrap_or(false) && sc["complete"].as_bool().unwrap_or(false));
+                        t["solver_runs"] = json!(t["solver_runs"].as_u64().unwrap_or(0) + sc["solver_runs"].as_u64().unwrap_or(0));
+                        t["wall_s"] = json!(t["wall_s"].as_f64().unwrap_or(0.0).max(sc["wall_s"].as_f64().unwrap_or(0.0)));
+                    }
+                }
+            }
+        }
+    }
+    for t in scopes.iter_mut() { t["processes"] = json!(n); }
+    (total, scopes, all_complete)
+}
+
+fn run_plans_here(rep: &Reporter, focus: &[&str], plans: &[Plan], deadline: Option<Instant>) -> (Agg, Vec<Value>, bool) {
     // cheapest scopes first: a wall clock cap (loaded machine) then only cuts the largest enumerations
     if plans.iter().any(|p| p.par1) { crate::rec::install_light_hook(); }
     let mut sorted: Vec<&Plan> = plans.iter().collect();
@@ -328,7 +422,8 @@ pub fn run_plans(rep: &Reporter, focus: &[&str], plans: &[Plan], deadline: Optio
         // observable): measured in this VM, ONE harness thread makes 1.9e4 such runs per second, two make 1.5e4, four 5e3 and
         // sixteen 4e3 (thread creation and exit serialise on the address space of the process): these plans use one thread
         let nt = if plan.par1 && std::env::var("VERIF_THREADS").is_err() { 1 } else { crate::par::nthreads() };
-        let res = par_run_n::<Agg, _>(n, chunk, deadline, rep.seed, nt, |i, agg| run_instance(rep, focus, plan, i, agg));
+        let stripe = *STRIPE.lock().unwrap();
+        let res = par_run_n::<Agg, _>(n, chunk, deadline, rep.seed, nt, |i, agg| { if let Some((k, m)) = stripe { if i % m != k { return; } } run_instance(rep, focus, plan, i, agg) });
         let mut runs = 0;
         for l in res.locals { runs += l.runs + l.cut_runs + l.primal_runs; total.merge(l); }
         if res.capped || res.done < n { all_complete = false; }
